@@ -119,9 +119,9 @@ func C04(tier string) int {
 		return 2
 	}
 	type hp struct{ k, words, T, mode, outs int }
-	hfam := []hp{{1, 2, 16, 0, 1}, {1, 2, 16, 1, 1}, {1, 3, 16, 1, 1}, {2, 2, 14, 1, 1}, {2, 3, 14, 1, 2}}
+	hfam := []hp{{1, 2, 16, 0, 1}, {1, 2, 16, 1, 1}, {1, 3, 16, 1, 1}, {2, 2, 14, 1, 1}, {2, 4, 12, 1, 2}}
 	if tier == "thorough" {
-		hfam = []hp{{1, 2, 24, 0, 1}, {1, 2, 24, 1, 1}, {1, 3, 24, 1, 1}, {1, 4, 20, 1, 1}, {2, 2, 20, 0, 1}, {2, 2, 20, 1, 1}, {2, 3, 18, 1, 1}, {3, 2, 16, 1, 1}, {2, 3, 18, 1, 2}, {2, 4, 16, 1, 2}}
+		hfam = []hp{{1, 2, 24, 0, 1}, {1, 2, 24, 1, 1}, {1, 3, 24, 1, 1}, {1, 4, 20, 1, 1}, {2, 2, 20, 0, 1}, {2, 2, 20, 1, 1}, {2, 3, 18, 1, 1}, {3, 2, 16, 1, 1}, {2, 3, 18, 1, 2}, {2, 4, 14, 1, 2}}
 	}
 	hout := make([]Outcome, len(hfam))
 	var wg sync.WaitGroup
